@@ -152,3 +152,31 @@ Qed.
 Theorem ins_index_no_items ls :
   forallb (fun l => negb (starts_item l)) ls = true -> ins_index ls = length ls - 1.
 Proof. intros H. unfold ins_index. now apply ins_go_no_items. Qed.
+
+(* ---- delete: the block of lines that is removed, for every page ---- *)
+Lemma find_line_first pat : forall pre l rest i,
+  forallb (fun x => negb (contains pat x)) pre = true -> contains pat l = true ->
+  find_line pat (pre ++ l :: rest) i = Some (i + length pre).
+Proof.
+  induction pre as [|x pre IH]; intros l rest i Hp Hl.
+  - cbn [app find_line length]. rewrite Hl. f_equal. lia.
+  - cbn [forallb] in Hp. apply andb_prop in Hp. destruct Hp as [Hx Hr]. apply negb_true_iff in Hx.
+    cbn [app find_line length]. rewrite Hx. rewrite IH by assumption. f_equal. lia.
+Qed.
+
+(* pre: the lines above the note, none of which mentions its ZID; blk: as many lines as the note's body has, the first
+   of them mentioning the ZID (the note's own lines); post: the rest. Exactly blk is removed. *)
+Theorem delete_exactly_the_notes_lines zid body pre l blk post :
+  forallb (fun x => negb (contains (S " " ++ zid ++ S " ") x)) pre = true ->
+  contains (S " " ++ zid ++ S " ") l = true ->
+  length (l :: blk) = length (split_on nlc body) ->
+  del_lines zid body (pre ++ (l :: blk) ++ post) = Some (pre ++ post).
+Proof.
+  intros Hp Hl Hlen. unfold del_lines. cbn [app].
+  rewrite find_line_first by assumption. cbn [Nat.add]. rewrite <- Hlen.
+  f_equal. f_equal.
+  - rewrite firstn_app, firstn_all, Nat.sub_diag. cbn [firstn]. now rewrite app_nil_r.
+  - assert (E : pre ++ l :: blk ++ post = (pre ++ (l :: blk)) ++ post) by (now rewrite <- app_assoc).
+    rewrite E. replace (length pre + length (l :: blk)) with (length (pre ++ (l :: blk))) by (now rewrite app_length).
+    rewrite skipn_app, skipn_all, Nat.sub_diag. reflexivity.
+Qed.
